@@ -217,23 +217,37 @@ def _decode_token(token: bytes) -> bytes:
     return raw
 
 
-def _compute_call_aad(auth: AuthContext | None) -> bytes:
-    r"""Build the AAD that binds a *call* token to its issuing principal.
+def _compute_call_aad(auth: AuthContext | None, method: str = "") -> bytes:
+    r"""Build the AAD that binds a *call* token to its principal and its method.
 
-    Identical in shape to :func:`_compute_aad` but with a distinct
-    version-tagged prefix, so a call token and a cursor token are not
-    interchangeable even for the same principal: presenting one where the
+    Wire format::
+
+        b"vgi_rpc.call.v2\x00" || method_bytes || b"\x00" || identity_tail
+
+    The identity tail is the one :func:`_compute_aad` uses.  The prefix is
+    distinct from the cursor token's, so a call token and a cursor token are
+    not interchangeable even for the same principal: presenting one where the
     other is expected fails the AEAD tag check rather than decoding into a
     payload the reader will misinterpret.
 
+    The method name is bound so that a call token opens only at the
+    ``/exchange`` endpoint of the stream method whose ``/init`` minted it.
+    Without it nothing tied a stream's tokens to its method: one method's
+    tokens posted to another method's endpoint were authentic, so the other
+    method ran on state its own initialization never produced.  Method names
+    are Python identifiers (NUL-free), so the ``\x00`` that ends the name
+    keeps the layout unambiguous.  The cursor token needs no such field: it is
+    bound to its call token by the authenticated ``call_id``.
+
     Args:
         auth: The authentication context for the current request.
+        method: Name of the stream method the token is minted for / opened at.
 
     Returns:
         Associated-data bytes for the AEAD seal/open call.
 
     """
-    prefix = b"vgi_rpc.call.v1\x00"
+    prefix = b"vgi_rpc.call.v2\x00" + method.encode() + b"\x00"
     if auth is None or not auth.authenticated:
         return prefix + b"\x00anonymous"
     domain = (auth.domain or "").encode()
@@ -439,9 +453,14 @@ class _ResolvedCall:
     immutable.  The schemas are ``pa.Schema`` (immutable in Arrow); the
     call-state object's immutability is the contract
     :meth:`StreamState.bind_call_state` documents.
+
+    ``method`` is the stream method whose ``/init`` minted the call.  A cache
+    hit skips the call token (and with it the AAD check that binds the token
+    to its method), so the entry carries the name and the reader compares it
+    with the endpoint it is serving.
     """
 
-    __slots__ = ("call_state", "input_schema", "output_schema", "stream_id")
+    __slots__ = ("call_state", "input_schema", "method", "output_schema", "stream_id")
 
     def __init__(
         self,
@@ -449,11 +468,13 @@ class _ResolvedCall:
         output_schema: pa.Schema,
         input_schema: pa.Schema,
         stream_id: str,
+        method: str,
     ) -> None:
         self.call_state = call_state
         self.output_schema = output_schema
         self.input_schema = input_schema
         self.stream_id = stream_id
+        self.method = method
 
 
 class _CallStateCache:
@@ -522,6 +543,7 @@ def _mint_call_token(
     token_key: bytes,
     auth: AuthContext | None,
     stream_id: str,
+    method: str,
     *,
     now: int | None = None,
 ) -> tuple[bytes, bytes, bytes]:
@@ -534,6 +556,7 @@ def _mint_call_token(
         token_key: Master AEAD key from the server config.
         auth: Authenticated identity for AAD binding.
         stream_id: Chain-correlation id.
+        method: Name of the stream method being initialized (AAD binding).
         now: Override for the baked-in timestamp; default ``time.time()``.
 
     Returns:
@@ -552,7 +575,7 @@ def _mint_call_token(
         call_id,
         stream_id,
         token_key,
-        _compute_call_aad(auth),
+        _compute_call_aad(auth, method),
         int(time.time()) if now is None else now,
     )
     return token, call_id, call_state_bytes
